@@ -9,7 +9,7 @@ open Dask.Py Dask.Py.PySlice Dask.Slicing
 theorem rules_sound : ∀ r ∈ rules, Sound r.2 := by
   intro r hr
   simp only [rules, List.mem_cons, List.mem_nil_iff, or_false] at hr
-  rcases hr with h | h | h | h | h | h | h | h | h | h | h | h | h | h | h | h <;> subst h
+  rcases hr with h | h | h | h | h | h | h | h | h | h | h | h | h | h | h | h | h <;> subst h
   · exact sliceIdentityDrop_sound
   · exact sliceSliceFuse_sound
   · exact sliceThroughMap_sound
@@ -26,6 +26,7 @@ theorem rules_sound : ∀ r ∈ rules, Sound r.2 := by
   · exact rechunkThroughTranspose_sound
   · exact rechunkThroughExpandDims_sound
   · exact rechunkIntoSrc_sound
+  · exact rechunkIntoRegion_sound
 
 theorem extraRules_sound : ∀ r ∈ extraRules, Sound r.2 := by
   intro r hr
